@@ -452,7 +452,8 @@ func schemeSection(x *h.X) {
 		}
 	}
 	// (5) key objects, signature/slhdsa constructors and keyset handles
-	const keyID = 0x01020304
+	// key ids rotate over the parameter sets; 0 is an id like any other (TINK prefix 01 00000000)
+	keyID := []uint32{0x01020304, 0, 0x80000001}[(p.N/8+len(p.Name))%3]
 	type pathKeys struct {
 		variant tslh.Variant
 		id      uint32
@@ -624,7 +625,7 @@ func apiVerifySection(x *h.X) {
 	x.Outcome("api-verify/" + p.Name)
 	msg := ref.Pattern(3, 33)
 	rsig, _ := p.Sign(msg, nil, v.sk, nil)
-	const keyID = 0x7fffffff
+	keyID := []uint32{0x7fffffff, 0, 0x00000100}[(p.N/8+len(p.Name))%3] // rotates over the parameter sets; 0 is an id like any other
 	for _, variant := range []tslh.Variant{tslh.VariantNoPrefix, tslh.VariantTink} {
 		id, prefix := uint32(0), []byte(nil)
 		if variant == tslh.VariantTink {
